@@ -53,12 +53,15 @@ func (r *Rule) Inflected(s string) string {
 }
 
 func (r *Rule) inflected(s string) string {
-	if res := r.compiledIrregular.FindStringSubmatch(s); len(res) >= 3 {
+	if loc := r.compiledIrregular.FindStringSubmatchIndex(s); len(loc) >= 6 {
+		word := s[loc[4]:loc[5]]
+
 		var buf strings.Builder
 
-		buf.WriteString(res[1])
-		buf.WriteString(s[0:1])
-		buf.WriteString(r.irregularMap[strings.ToLower(res[2])][1:])
+		// keep everything before the matched word and the case of its first letter
+		buf.WriteString(s[:loc[4]])
+		buf.WriteString(word[0:1])
+		buf.WriteString(r.irregularMap[strings.ToLower(word)][1:])
 
 		return buf.String()
 	}
